@@ -125,16 +125,19 @@ class Probe:
     # ---- the six API calls -------------------------------------------------
     def alarm(self, cbid, seconds, body):
         ev, ret = self._call("alarm", cbid, self.loop.alarm, seconds, self._wrap(cbid, "alarm", body), sec=seconds)
+        ev["handle_falsy"] = not ret
         self.handles[cbid] = ret
         return ret
 
     def watch_file(self, cbid, fdkey, fdobj, body):
         ev, ret = self._call("watch_file", cbid, self.loop.watch_file, fdobj, self._wrap(cbid, "watch", body, fdkey), fd=fdkey)
+        ev["handle_falsy"] = not ret
         self.handles[cbid] = ret
         return ret
 
     def enter_idle(self, cbid, body):
         ev, ret = self._call("enter_idle", cbid, self.loop.enter_idle, self._wrap(cbid, "idle", body))
+        ev["handle_falsy"] = not ret
         self.handles[cbid] = ret
         return ret
 
@@ -252,7 +255,8 @@ class VirtualOS:
 
     BASE = 1000.0  # seconds; small enough that float arithmetic on it is exact to << 1 us
 
-    def __init__(self, nfd, arrivals=(), order="reg", poll_limit=3000):
+    def __init__(self, nfd, arrivals=(), order="reg", poll_limit=3000, fd_base=100):
+        self.fd_base = fd_base  # descriptor number of key 0 (0 = the program watches "stdin")
         self.us = 0
         self.pending = {k: 0 for k in range(nfd)}
         self.arrivals = sorted([list(a) for a in arrivals])  # [t_us, fdkey, nbytes]
@@ -393,9 +397,9 @@ class FakeSelectorsModule:
                     us = 0
                 else:
                     us = math.ceil(timeout * 1e6 - 1e-9)
-                reg = [fd - mod.FD_BASE for fd in self._keys]
+                reg = [fd - mod._vos.fd_base for fd in self._keys]
                 ready = mod._vos.wait(reg, us)
-                return [(self._keys[k + mod.FD_BASE], mod.EVENT_READ) for k in ready]
+                return [(self._keys[k + mod._vos.fd_base], mod.EVENT_READ) for k in ready]
 
         self.DefaultSelector = DefaultSelector
         self.SelectSelector = DefaultSelector
@@ -406,11 +410,12 @@ class FakeSelectorsModule:
 class FakeFile:
     """file-like object handed to ZMQEventLoop.watch_file in virtual mode"""
 
-    def __init__(self, key):
+    def __init__(self, key, fd_base=100):
         self.key = key
+        self.fd_base = fd_base
 
     def fileno(self):
-        return FakeSelectorsModule.FD_BASE + self.key
+        return self.fd_base + self.key
 
     def close(self):
         pass
@@ -457,7 +462,7 @@ class FakePoller:
             if isinstance(timeout, float):
                 timeout = int(timeout)
             us = int(timeout) * 1000
-        base = FakeSelectorsModule.FD_BASE
+        base = self._vos.fd_base
         reg = [(s if isinstance(s, int) else s.fileno()) - base for s, _f in self.sockets]
         ready = self._vos.wait(reg, us)
         return [(k + base, POLLIN) for k in ready]
